@@ -240,7 +240,19 @@ pub fn gen_timeline(rng: &mut Rng, k: &Knobs) -> TlSpec {
     } else {
         rng.range(1, k.max_kfs as i64) as usize
     };
-    let positions = gen_positions(rng, k, n_kfs);
+    // Rarely: very many keyframes (dozens; hundreds - more frames for one property than fit in a
+    // byte), at evenly spread distinct positions.
+    let many = if rng.chance(0.006) {
+        Some(rng.range(17, 70) as usize)
+    } else if rng.chance(0.0015) {
+        Some(rng.range(258, 420) as usize)
+    } else {
+        None
+    };
+    let positions = match many {
+        Some(n) => (0..n).map(|i| (i as f32 + if i == 0 { 0.0 } else { 0.5 }) / n as f32).collect(),
+        None => gen_positions(rng, k, n_kfs),
+    };
     // Per-timeline subset of properties that may appear (so some properties stay un-animated).
     let mut allowed = [false; 4];
     for slot in allowed.iter_mut() {
